@@ -221,6 +221,8 @@ def rule_order(prog, res):
                     c = t.args[0]
                     if self_field(c.args[1][0], 0) == 1 and self_field(c.args[1][1], 0) == 2 and k == "eq":
                         band_cmp = v
+                    elif self_field(c.args[1][0], 0) == 1 and self_field(c.args[1][1], 0) == 2 and k == "ne" and set(v) == {0}:
+                        band_cmp = "ne"
                     else:
                         bad.append("band comparison with unexpected operands: " + show(c, fa.names))
             key = (st["l"], st["r"], band_cmp)
@@ -255,16 +257,23 @@ def rule_order(prog, res):
         res.ob("Y-ord", "%s | recognised vs unrecognised: Less" % g, is_ord(only((1, 0, None)), "Less"), str(cases.get((1, 0, None))), f.loc)
         adt = prog.adts.get("core::cmp::Ordering")
         # Ordering discriminants: Less=-1 (255 as u8 / i8), Equal=0, Greater=1
-        lessv = [k for k in cases if k[0] == 0 and k[1] == 0 and k[2] not in (0, 1, None)]
-        res.ob("Y-ord", "%s | both unrecognised, bands differ: follow the band comparison" % g,
-               len(lessv) == 1 and is_ord(only(lessv[0]), "Less") and is_ord(only((0, 0, 1)), "Greater"),
-               "less-case=%s greater-case=%s" % ([cases[k] for k in lessv], cases.get((0, 0, 1))), f.loc)
+        lessv = [k for k in cases if k[0] == 0 and k[1] == 0 and k[2] not in (0, 1, None, "ne")]
+        okband = len(lessv) == 1 and is_ord(only(lessv[0]), "Less") and is_ord(only((0, 0, 1)), "Greater")
+        passthrough = False
+        if not okband and (0, 0, "ne") in cases and not lessv and (0, 0, 1) not in cases:
+            # `a.cmp(b).then_with(..)` style: when the band comparison is not Equal its own result is returned
+            v = only((0, 0, "ne"))
+            passthrough = v is not None and v.op == "call" and v.args[0] == "core::cmp::impls::<impl core::cmp::Ord for u8>::cmp" \
+                and self_field(v.args[1][0], 0) == 1 and self_field(v.args[1][1], 0) == 2
+            okband = passthrough
+        res.ob("Y-ord", "%s | both unrecognised, bands differ: follow the band comparison" % g, okband,
+               "less-case=%s greater-case=%s pass-through=%s" % ([cases[k] for k in lessv], cases.get((0, 0, 1)), cases.get((0, 0, "ne"))), f.loc)
         v = only((0, 0, 0))
         ok = v is not None and v.op == "call" and v.args[0] == "core::cmp::impls::<impl core::cmp::Ord for char>::cmp" \
             and self_field(v.args[1][0], 1) == 1 and self_field(v.args[1][1], 1) == 2
         res.ob("Y-ord", "%s | both unrecognised, same band: compare attributes (self.1.cmp(other.1))" % g, ok,
                show(v, names) if v is not None else str(cases.get((0, 0, 0))), f.loc)
-        known = {(1, 1, None), (0, 1, None), (1, 0, None), (0, 0, 0), (0, 0, 1)} | set(lessv)
+        known = {(1, 1, None), (0, 1, None), (1, 0, None), (0, 0, 0), (0, 0, 1)} | set(lessv) | ({(0, 0, "ne")} if passthrough else set())
         extra = [k for k in cases if k not in known]
         res.ob("Y-ord", "%s | no other case" % g, not extra and not bad, "extra cases %s %s" % (extra, bad), f.loc)
         # Y-part
